@@ -1106,6 +1106,18 @@ n(["C19", "C06"], "ispull-operands-swapped", CS,
   "	return c.ic.Initiator == c.ic.Recipient",
   "	return c.ic.Recipient == c.ic.Initiator",
   "operands of == swapped")
+n(["C03", "C11", "C02", "C09"], "fsm-named-action-and-list-var", FSM,
+  "	fsm.Event(datatransfer.PauseInitiator).\n		FromMany(datatransfer.Ongoing, datatransfer.Requested, datatransfer.Queued, datatransfer.AwaitingAcceptance).ToJustRecord().\n		Action(func(chst *internal.ChannelState) error {\n			chst.InitiatorPaused = true\n			chst.AddLog(\"\")\n			return nil\n		}),",
+  "	fsm.Event(datatransfer.PauseInitiator).\n		FromMany(pausableStates...).ToJustRecord().\n		Action(markInitiatorPaused(true)),",
+  "FromMany list hoisted into a variable, action made by a factory called with a constant",
+  more=[("	// Remote peer has accepted the Open channel request\n	fsm.Event(datatransfer.Accept).\n		From(datatransfer.Requested).To(datatransfer.Queued).\n		From(datatransfer.AwaitingAcceptance).To(datatransfer.Ongoing).\n		Action(func(chst *internal.ChannelState) error {\n			chst.AddLog(\"\")\n			return nil\n		}),",
+         "	// Remote peer has accepted the Open channel request\n	fsm.Event(datatransfer.Accept).\n		From(datatransfer.Requested).To(datatransfer.Queued).\n		From(datatransfer.AwaitingAcceptance).To(datatransfer.Ongoing).\n		Action(recordOnly),"),
+        ("// ChannelEvents describe the events taht can", "var pausableStates = []fsm.StateKey{datatransfer.Ongoing, datatransfer.Requested, datatransfer.Queued, datatransfer.AwaitingAcceptance}\n\nfunc recordOnly(chst *internal.ChannelState) error {\n	chst.AddLog(\"\")\n	return nil\n}\n\nfunc markInitiatorPaused(paused bool) func(*internal.ChannelState) error {\n	return func(chst *internal.ChannelState) error {\n		chst.InitiatorPaused = paused\n		chst.AddLog(\"\")\n		return nil\n	}\n}\n\n// ChannelEvents describe the events taht can")])
+m("C11", "factory-action-wrong-constant", FSM,
+  "	fsm.Event(datatransfer.PauseInitiator).\n		FromMany(datatransfer.Ongoing, datatransfer.Requested, datatransfer.Queued, datatransfer.AwaitingAcceptance).ToJustRecord().\n		Action(func(chst *internal.ChannelState) error {\n			chst.InitiatorPaused = true\n			chst.AddLog(\"\")\n			return nil\n		}),",
+  "	fsm.Event(datatransfer.PauseInitiator).\n		FromMany(datatransfer.Ongoing, datatransfer.Requested, datatransfer.Queued, datatransfer.AwaitingAcceptance).ToJustRecord().\n		Action(markInitiatorPaused(false)),",
+  "C11.1", "pause event clears the flag (through a factory-made action)",
+  more=[("// ChannelEvents describe the events taht can", "func markInitiatorPaused(paused bool) func(*internal.ChannelState) error {\n	return func(chst *internal.ChannelState) error {\n		chst.InitiatorPaused = paused\n		chst.AddLog(\"\")\n		return nil\n	}\n}\n\n// ChannelEvents describe the events taht can")])
 n(["C10"], "restart-ext-helper-inlined", GS,
   "	restartExts, err := t.getRestartExtension(ctx, dataSender, channel)\n	if err != nil {\n		return err\n	}\n	exts = append(exts, restartExts...)\n",
   "	if channel != nil {\n		restartExts, err := getDoNotSendFirstBlocksExtension(channel)\n		if err != nil {\n			return err\n		}\n		exts = append(exts, restartExts...)\n	}\n",
